@@ -172,7 +172,7 @@ def _copy(cls, o):
 def exec_job(job):
     cls, kw = job["cls"], dict(job["kw"])
     kw["note"] = "N1"
-    e = dict(tid=job["tid"], i=0, act="FP", cls=cls, plat=kw.get("platform", "ios"), vmajor=job["vmajor"], proto=kw.get("protocol", ""),
+    e = dict(tid=job["tid"], i=0, act="FP", cls=cls, plat=job.get("read_as") or kw.get("platform", "ios"), vmajor=job["vmajor"], proto=kw.get("protocol", ""),
              native=job["native"], inp=parts_of(cls, job["text"]), exc="", t1=[], re=dict(exc="", t=[], same_text=True, same_data=True),
              re2=dict(exc="", t=[], same_text=True, same_data=True),
              conv=dict(done=False, exc="", t1=[], back_exc="", t2=[], there_again_same_text=True, same_id=True, same_note=True),
@@ -203,6 +203,8 @@ def exec_job(job):
     if job.get("extras", True):
         try:
             o_cp = build(cls, job["text"], kw)
+            if job.get("set_items"):
+                o_cp.items = list(job["set_items"])
             if cls in ("AddrGroup", "addrgroups", "Acl", "acls") and job["tid"] % 4 == 0:
                 o_cp.indent = ""         # rendered without indentation (set through the public property): copies must follow
             e["cp"] = _copy(cls, o_cp)
@@ -264,6 +266,15 @@ def gen_jobs(rng, n):
                     txt = f"{rng.choice([10, 20, 4294967295])} {txt}"
                     native = native and plat == "nxos"      # IOS members carry no number: the library drops it on re-typing
                 add("AddressAg", txt, dict(base), vm, native)
+            if rng.random() < 0.2:     # a member that references another group, with that group's members loaded (IOS; and ASA, whose
+                asa = rng.random() < 0.4   # member syntax is the same here: the text is read as IOS, the object lives on asa)
+                inner = [rng.choice(["host 10.1.1.1", "10.2.0.0 255.255.0.0", "host 192.168.7.7"]) for _k in range(rng.randint(1, 3))]
+                how = rng.choice(["kw", "setter"])       # members given to the constructor, or attached afterwards through the items setter
+                add("AddressAg", "group-object " + rng.choice(["INNER", "G-2"]),
+                    dict(platform="asa" if asa else "ios", version="", **(dict(items=inner) if how == "kw" else {})), 0, True)
+                jobs[-1]["read_as"] = "ios"
+                if how == "setter":
+                    jobs[-1]["set_items"] = inner
         elif r < 0.6:     # Remark
             words = rng.choice(["text", "10 text", "permit ip any any", "= H1, details", "a  b", "deny", "remark remark", "x" * 40, "1.1.1.1 any"])
             seq = rng.choice(["", "10 ", "4294967295 "])
